@@ -60,3 +60,7 @@ def run(ctx):
     _fx.parameter_resolution(ctx)  # the quadrature order given with an operator is the order its assembler integrates with
     _fx.assembler_plumbing(ctx)
     _ab.forwarded_optionals(ctx)
+    from . import c10 as _c10b
+
+    _c10b.compat(ctx)  # the singular part (and the FMM near field built on it) converts the spaces first and reads the converted ones only
+    _c10b.compat_use(ctx)
